@@ -9,7 +9,7 @@ use std::sync::Mutex;
 use swimos_model::Value;
 use swimos_recon::parser::parse_recognize;
 use vcommon::{pick_index, Verdict};
-use vgen::V;
+use vgen::{I, V};
 
 pub fn intern(s: String) -> &'static str {
     static TABLE: Mutex<Option<HashMap<String, &'static str>>> = Mutex::new(None);
@@ -67,6 +67,9 @@ pub struct Stream {
     pub fields: Vec<(usize, Field)>,
     pub typed_enc: usize,
     pub raw_enc: usize,
+    /// Strict families only: the frame carries a body that is not of the decoder's type (the
+    /// entry of `expected` is then just the original message, as a placeholder).
+    pub ill: Vec<bool>,
 }
 
 impl Stream {
@@ -101,9 +104,18 @@ pub fn expected_of(fam: &Fam, m: &Msg) -> Option<Msg> {
     })
 }
 
+/// Strict (`i32`) decoders: `None` when some body of the message is not an `i32` for the one-shot parser.
+pub fn expected_strict(m: &Msg) -> Option<Msg> {
+    m.map_scalars(&mut |s| {
+        let w = s.wire();
+        let text = std::str::from_utf8(&w).ok()?;
+        parse_recognize::<i32>(text, false).ok().map(|n| Sc::Recon(V::I32(n)))
+    })
+}
+
 pub fn build(fam: &Fam, items: &[Item]) -> Option<Stream> {
     let mut dst = BytesMut::new();
-    let mut st = Stream { bytes: vec![], ends: vec![], expected: vec![], fields: vec![], typed_enc: 0, raw_enc: 0 };
+    let mut st = Stream { bytes: vec![], ends: vec![], expected: vec![], fields: vec![], typed_enc: 0, raw_enc: 0, ill: vec![] };
     for (i, it) in items.iter().enumerate() {
         let before = dst.len();
         let typed = fam.encode(&it.m, it.typed, &mut dst);
@@ -119,7 +131,21 @@ pub fn build(fam: &Fam, items: &[Item]) -> Option<Stream> {
             st.fields.push((i, Field { off: f.off + before, ..f }));
         }
         st.ends.push(dst.len());
-        st.expected.push(expected_of(fam, &it.m)?);
+        if fam.strict {
+            match expected_strict(&it.m) {
+                Some(e) => {
+                    st.expected.push(e);
+                    st.ill.push(false);
+                }
+                None => {
+                    st.expected.push(it.m.clone());
+                    st.ill.push(true);
+                }
+            }
+        } else {
+            st.expected.push(expected_of(fam, &it.m)?);
+            st.ill.push(false);
+        }
     }
     st.bytes = dst.to_vec();
     // Self-check of the layout model: every extent length field holds a number no larger than its frame.
@@ -161,12 +187,21 @@ pub struct Run {
     pub decode_calls: usize,
     /// Stream offsets at which a read ended (chunk boundaries).
     pub reads: Vec<usize>,
+    /// At the first `Err`: (messages produced so far, bytes fed so far, stream offset of the first unread byte).
+    pub first_err: Option<(usize, usize, usize)>,
 }
 
 /// Append a chunk, call `decode` until `Ok(None)`; after the last chunk call `decode_eof` until
 /// `Ok(None)`. Stops at the first `Err` (a `FramedRead` ends the stream there).
 pub fn feed(dec: &mut dyn Dec, stream: &[u8], chunks: &mut dyn FnMut(usize) -> usize) -> Run {
-    let mut run = Run { msgs: vec![], err: None, contract: None, leftover: 0, decode_calls: 0, reads: vec![] };
+    feed_opts(dec, stream, chunks, 1)
+}
+
+/// As `feed`, but keeps calling the decoder after an `Err` until `max_errs` errors were seen
+/// (`run.err` / `run.first_err` describe the first one).
+pub fn feed_opts(dec: &mut dyn Dec, stream: &[u8], chunks: &mut dyn FnMut(usize) -> usize, max_errs: usize) -> Run {
+    let mut errs = 0usize;
+    let mut run = Run { msgs: vec![], err: None, contract: None, leftover: 0, decode_calls: 0, reads: vec![], first_err: None };
     let mut buf = BytesMut::new();
     let mut fed = 0usize;
     let mut idle = 0u32;
@@ -213,9 +248,15 @@ pub fn feed(dec: &mut dyn Dec, stream: &[u8], chunks: &mut dyn FnMut(usize) -> u
                     break;
                 }
                 Err(e) => {
-                    run.err = Some(e);
-                    run.leftover = buf.len();
-                    return run;
+                    errs += 1;
+                    if run.err.is_none() {
+                        run.err = Some(e);
+                        run.first_err = Some((run.msgs.len(), fed, fed - buf.len()));
+                    }
+                    if errs >= max_errs || buf.len() >= before {
+                        run.leftover = buf.len();
+                        return run;
+                    }
                 }
             }
         }
@@ -241,7 +282,10 @@ pub fn feed(dec: &mut dyn Dec, stream: &[u8], chunks: &mut dyn FnMut(usize) -> u
             }
             Ok(None) => break,
             Err(e) => {
-                run.err = Some(e);
+                if run.err.is_none() {
+                    run.err = Some(e);
+                    run.first_err = Some((run.msgs.len(), fed, fed - buf.len()));
+                }
                 break;
             }
         }
@@ -855,4 +899,335 @@ pub fn describe_target(fam: &Fam, c: &MutCase) -> (&'static str, &'static str, S
         Some(x) => x,
         None => ("none", "skipped:mutation-not-applicable", "mutation not applicable".into()),
     }
+}
+
+// ---------------------------------------------------------------------------------------------
+// Ill-typed but well-framed bodies (strict families)
+
+#[derive(Clone, Debug, Serialize, Deserialize)]
+pub struct IllCase {
+    pub items: Vec<Item>,
+    pub cuts: Vec<u16>,
+    /// Three further cut positions (selectors over the stream).
+    pub triple: [u16; 3],
+}
+
+pub fn arb_ill(fam: &Fam) -> BoxedStrategy<IllCase> {
+    let one = ((fam.msgs)(fam.sc_mode()), any::<bool>()).prop_map(|(m, typed)| Item { m, typed });
+    (proptest::collection::vec(one, 2..=5), arb_cuts(), any::<[u16; 3]>())
+        .prop_map(|(items, cuts, triple)| IllCase { items, cuts, triple })
+        .boxed()
+}
+
+/// Reads that end at the given (sorted, deduplicated) stream offsets, then the rest.
+fn chunker_from_offsets(offsets: Vec<usize>) -> impl FnMut(usize) -> usize {
+    let mut at = 0usize;
+    let mut i = 0usize;
+    move |rem| {
+        while i < offsets.len() && offsets[i] <= at {
+            i += 1;
+        }
+        let n = if i < offsets.len() { offsets[i] - at } else { rem };
+        at += n.min(rem).max(1);
+        n
+    }
+}
+
+/// What is required after a body error. The readers in the repository that use typed decoders
+/// (`swimos_downlink::task::{value,event,map}`, the hosted downlinks of `swimos_agent`) give the
+/// stream up at the first `Err`, so nothing is asserted about frames after the ill-typed one
+/// (whether the decoder re-synchronises is only recorded as a class). Asserted: frames before it
+/// decode exactly; no message is produced in its place; an `Err` IS reported, no later than the
+/// decode calls that follow the read delivering the last byte of that frame (otherwise a live
+/// stream, which has no end of input, stalls and later frames are swallowed); and when it is
+/// reported nothing beyond that frame has been consumed.
+pub fn check_ill(fam: &Fam, c: &IllCase) -> Verdict {
+    let mut v = Verdict::new();
+    let st = build(fam, &c.items).expect("harness: strict build cannot fail");
+    msg_classes(&mut v, fam, &st, &c.items);
+    let len = st.bytes.len();
+    let n = st.expected.len();
+    let Some(bad) = st.ill.iter().position(|b| *b) else {
+        v.class("ill:none (all bodies well typed)");
+        for how in 0..2 {
+            let mut d = (fam.dec)();
+            let run = if how == 0 { feed(d.as_mut(), &st.bytes, &mut |r| r) } else { feed(d.as_mut(), &st.bytes, &mut chunker_from_cuts(&c.cuts)) };
+            if let Some((sig, detail)) = verify_prefix(fam, &st, n, true, &run) {
+                v.fail(sig, detail);
+                break;
+            }
+        }
+        return v;
+    };
+    v.nontrivial();
+    v.class(match bad {
+        0 => "ill:first-frame",
+        _ if bad == n - 1 => "ill:last-frame",
+        _ => "ill:middle-frame",
+    });
+    let bad_start = st.start(bad);
+    let bad_end = st.ends[bad];
+    let mut plans: Vec<(String, Vec<usize>)> = vec![("whole stream in one read".into(), vec![])];
+    for p in 1..len {
+        plans.push((format!("two reads split at {}", p), vec![p]));
+    }
+    // every pair of cuts around the ill-typed frame (this is where a decoder that is discarding
+    // the rest of a rejected body has to keep count over several reads)
+    let lo = bad_start.saturating_sub(2).max(1);
+    let hi = (bad_end + 10).min(len - 1);
+    let span = hi.saturating_sub(lo) + 1;
+    let step = (span * span / 2 / 3000).max(1);
+    let mut k = 0usize;
+    for i in lo..=hi {
+        for j in i + 1..=hi {
+            k += 1;
+            if k % step == 0 {
+                plans.push((format!("three reads split at {} and {}", i, j), vec![i, j]));
+            }
+        }
+    }
+    let mut t: Vec<usize> = c.triple.iter().map(|x| 1 + pick_index(*x, len.saturating_sub(1).max(1))).collect();
+    t.sort();
+    t.dedup();
+    plans.push((format!("reads split at {:?}", t), t));
+    let mut seen: Vec<String> = vec![];
+    let mut resync_ok = 0usize;
+    let mut resync_lost = 0usize;
+    let mut evaluate = |v: &mut Verdict, how: String, run: Run| {
+        let mut fails: Vec<(String, String)> = vec![];
+        if let Some(f) = verify_prefix(fam, &st, bad, false, &run) {
+            fails.push(f);
+        } else if let Some((law, d)) = &run.contract {
+            fails.push((format!("{}:{}", law, fam.name), d.clone()));
+        } else {
+            match run.first_err {
+                None => fails.push((
+                    format!("illtyped-no-error:{}", fam.name),
+                    format!(
+                        "frame {} ({}..{}) carries a body that is not an i32 but no error was ever reported; {} message(s) were produced, {} bytes left at end of input",
+                        bad, bad_start, bad_end, run.msgs.len(), run.leftover
+                    ),
+                )),
+                Some((msgs_before, fed, pos)) => {
+                    if msgs_before > bad {
+                        fails.push((
+                            format!("illtyped-accepted:{}", fam.name),
+                            format!("frame {} carries a body that is not an i32 but {} was produced before any error", bad, short(&run.msgs[bad].0)),
+                        ));
+                    } else {
+                        let due = run.reads.iter().copied().find(|r| *r >= bad_end).unwrap_or(len);
+                        if fed > due {
+                            fails.push((
+                                format!("illtyped-late-error:{}", fam.name),
+                                format!(
+                                    "the error for frame {} ({}..{}) was only reported after {} bytes had been read (the frame was complete after {})",
+                                    bad, bad_start, bad_end, fed, due
+                                ),
+                            ));
+                        }
+                        if pos > bad_end {
+                            fails.push((
+                                format!("illtyped-over-consume:{}", fam.name),
+                                format!("when the error for frame {} ({}..{}) was reported {} bytes had been consumed", bad, bad_start, bad_end, pos),
+                            ));
+                        }
+                        // informational: does the decoder find the next frame again?
+                        let next_bad = (bad + 1..n).find(|i| st.ill[*i]).unwrap_or(n);
+                        if next_bad > bad + 1 {
+                            let after = &run.msgs[msgs_before.min(run.msgs.len())..];
+                            let want = &st.expected[bad + 1..next_bad];
+                            if after.len() >= want.len() && after.iter().zip(want).all(|((m, _), w)| m == w) {
+                                resync_ok += 1;
+                            } else {
+                                resync_lost += 1;
+                            }
+                        }
+                    }
+                }
+            }
+        }
+        for (sig, detail) in fails {
+            if !seen.contains(&sig) {
+                seen.push(sig.clone());
+                v.fail(sig, format!("[{}; stream of {} bytes, frame ends {:?}, ill-typed frame {}] {}", how, len, st.ends, bad, detail));
+            }
+        }
+    };
+    for (how, offs) in plans {
+        let mut d = (fam.dec)();
+        let run = feed_opts(d.as_mut(), &st.bytes, &mut chunker_from_offsets(offs), 6);
+        evaluate(&mut v, how, run);
+    }
+    {
+        let mut d = (fam.dec)();
+        let run = feed_opts(d.as_mut(), &st.bytes, &mut |_| 1, 6);
+        evaluate(&mut v, "one byte per read".into(), run);
+    }
+    {
+        let mut d = (fam.dec)();
+        let run = feed_opts(d.as_mut(), &st.bytes, &mut chunker_from_cuts(&c.cuts), 6);
+        evaluate(&mut v, format!("reads of sizes from cuts {:?}", c.cuts), run);
+    }
+    v.class_if(resync_ok > 0 && resync_lost == 0, "resync:always");
+    v.class_if(resync_lost > 0 && resync_ok > 0, "resync:depends-on-reads");
+    v.class_if(resync_lost > 0 && resync_ok == 0, "resync:never");
+    v
+}
+
+// ---------------------------------------------------------------------------------------------
+// Large frames (around the 8 KiB and 64 KiB marks) delivered in many reads
+
+pub const BIG_LENS: &[u32] = &[8191, 8192, 8193, 65535, 65536, 65537, 65538, 65600, 70001, 140000];
+pub const BIG_CHUNKS: &[u32] = &[7, 64, 1000, 4096, 8192, 65536];
+
+#[derive(Clone, Debug, Serialize, Deserialize)]
+pub struct BigCase {
+    pub pre: Vec<Item>,
+    /// A message with a body; its last scalar is replaced by one that makes the frame `frame_len` long.
+    pub template: Item,
+    pub post: Vec<Item>,
+    /// 0 bytes (raw families only), 1 one bare identifier, 2 quoted string with multi-byte
+    /// characters, 3 record of numbers (length only approximate).
+    pub style: u8,
+    pub frame_len: u32,
+    pub chunk: u32,
+    pub cuts: Vec<u16>,
+}
+
+pub fn arb_big(fam: &Fam) -> BoxedStrategy<BigCase> {
+    let mode = fam.sc_mode();
+    let item = ((fam.msgs)(mode), any::<bool>()).prop_map(|(m, typed)| Item { m, typed });
+    let template = item.clone().prop_filter("message with a body", |it| !it.m.scalars().is_empty());
+    (
+        proptest::collection::vec(item.clone(), 0..=2),
+        template,
+        proptest::collection::vec(item, 0..=2),
+        0u8..4,
+        proptest::sample::select(BIG_LENS),
+        proptest::sample::select(BIG_CHUNKS),
+        arb_cuts(),
+    )
+        .prop_map(|(pre, template, post, style, frame_len, chunk, cuts)| BigCase { pre, template, post, style, frame_len, chunk, cuts })
+        .boxed()
+}
+
+fn big_body(style: u8, n: usize) -> Sc {
+    match style {
+        0 => Sc::Bytes((0..n).map(|i| (i * 31 % 251) as u8).collect()),
+        1 => Sc::Recon(V::Text("a".repeat(n.max(1)))),
+        2 => {
+            // quoted (contains blanks), a two byte character every 97 characters, exactly n bytes with the quotes
+            let want = n.saturating_sub(2).max(1);
+            let mut s = String::with_capacity(want);
+            let mut i = 0usize;
+            while s.len() < want {
+                i += 1;
+                if i % 97 == 0 && s.len() + 2 <= want {
+                    s.push('é');
+                } else if i % 11 == 0 {
+                    s.push(' ');
+                } else {
+                    s.push((b'a' + (i % 26) as u8) as char);
+                }
+            }
+            if !s.contains(' ') {
+                s.replace_range(0..1, " ");
+            }
+            Sc::Recon(V::Text(s))
+        }
+        _ => {
+            let mut items = vec![];
+            let mut total = 2usize;
+            let mut i = 0i32;
+            while total < n {
+                let x = (i * 7919) % 100_000;
+                total += x.to_string().len() + 1;
+                items.push(I::Val(V::I32(x)));
+                i += 1;
+            }
+            Sc::Recon(V::Record(vec![], items))
+        }
+    }
+}
+
+fn with_last_scalar(m: &Msg, body: &Sc) -> Msg {
+    let total = m.scalars().len();
+    let mut idx = 0usize;
+    m.map_scalars(&mut |s| {
+        idx += 1;
+        Some(if idx == total { body.clone() } else { s.clone() })
+    })
+    .expect("harness: map_scalars")
+}
+
+pub fn check_big(fam: &Fam, c: &BigCase) -> Verdict {
+    let mut v = Verdict::new();
+    let style = if fam.sc_mode() == ScMode::Any { c.style % 4 } else { 1 + c.style % 3 };
+    v.class(match style {
+        0 => "big:bytes",
+        1 => "big:bare-identifier",
+        2 => "big:quoted-string",
+        _ => "big:record",
+    });
+    v.class(intern(format!("frame-len:{}", c.frame_len)));
+    let frame_of = |n: usize| -> (Item, usize) {
+        let it = Item { m: with_last_scalar(&c.template.m, &big_body(style, n)), typed: c.template.typed };
+        let mut dst = BytesMut::new();
+        fam.encode(&it.m, it.typed, &mut dst);
+        (it, dst.len())
+    };
+    // fit the body so that the frame has exactly the wanted length (styles 0-2)
+    let target = c.frame_len as usize;
+    let (_, l1) = frame_of(64);
+    let overhead = l1 - 64;
+    let (big, flen) = frame_of(target.saturating_sub(overhead).max(8));
+    v.class_if(flen == target, "big:exact-length");
+    let mut items = c.pre.clone();
+    let big_idx = items.len();
+    items.push(big);
+    items.extend(c.post.iter().cloned());
+    let Some(st) = build(fam, &items) else {
+        v.class("skipped:body-not-one-shot-parseable");
+        return v;
+    };
+    v.nontrivial();
+    let len = st.bytes.len();
+    let n = st.expected.len();
+    let bs = st.start(big_idx);
+    let be = st.ends[big_idx];
+    let chunk = if c.chunk < 64 && flen > 9000 { 64 } else { c.chunk as usize };
+    v.class(intern(format!("reads-of:{}", chunk)));
+    let mut plans: Vec<(String, Vec<usize>)> = vec![("whole stream in one read".into(), vec![])];
+    plans.push((format!("reads of {} bytes", chunk), (1..=len / chunk).map(|i| i * chunk).filter(|p| *p < len).collect()));
+    for p in [be - 1, be.saturating_sub(2), be + 1, bs + 8192, bs + 65536, bs + 65537, bs + 1] {
+        if p > 0 && p < len {
+            plans.push((format!("two reads split at {}", p), vec![p]));
+        }
+    }
+    // random reads, scaled so that a frame takes a few hundred reads at most
+    let scale = (flen / 300).max(1);
+    let mut offs = vec![];
+    let mut at = 0usize;
+    let mut i = 0usize;
+    while at < len {
+        at += (1 + pick_index(c.cuts[i % c.cuts.len()], 12)) * scale;
+        i += 1;
+        if at < len {
+            offs.push(at);
+        }
+    }
+    plans.push((format!("random reads of {}..{} bytes", scale, 12 * scale), offs));
+    let mut seen: Vec<String> = vec![];
+    for (how, offs) in plans {
+        let mut d = (fam.dec)();
+        let run = feed(d.as_mut(), &st.bytes, &mut chunker_from_offsets(offs));
+        if let Some((sig, detail)) = verify_prefix(fam, &st, n, true, &run) {
+            if !seen.contains(&sig) {
+                seen.push(sig.clone());
+                let detail: String = detail.chars().take(600).collect();
+                v.fail(sig, format!("[{}; stream of {} bytes, big frame {}..{} ({} bytes)] {}", how, len, bs, be, flen, detail));
+            }
+        }
+    }
+    v
 }
